@@ -44,7 +44,9 @@ def run_mutant(mu, tier, extra_props=()):
             r = subprocess.run(['/venv/bin/python', '-m', 'fbverif.harness', prop, '--tier', tier],
                                cwd=VERIF, env=env, capture_output=True, text=True)
             sigs = [l.strip()[11:] for l in r.stdout.splitlines() if l.strip().startswith('signature:')]
-            res['checks'][prop] = {'exit': r.returncode, 'signatures': sigs[:3], 'wall': round(time.time() - t0, 1)}
+            nviol = sum(1 for l in r.stdout.splitlines() if l.startswith('VIOLATION property='))
+            rc_eff = r.returncode if not (r.returncode == 1 and nviol == 0) else 3   # 3 = harness failure, not a detection
+            res['checks'][prop] = {'exit': rc_eff, 'signatures': sigs[:3], 'wall': round(time.time() - t0, 1)}
         exp = [res['checks'][p]['exit'] for p in mu['props']]
         res['status'] = 'caught' if any(e == 1 for e in exp) else 'MISSED'
         if res['status'] == 'MISSED' and mu.get('equivalent'):
